@@ -8,6 +8,7 @@
 EXTENDS Integers, Sequences, FiniteSets
 Pred(fam, c, v) == CASE fam = "eq" -> v = c [] fam = "ne" -> v # c [] fam = "gt" -> v > c [] OTHER -> FALSE
 Equiv(fam, x, y) == CASE fam = "mod2" -> x % 2 = y % 2
+                      [] fam = "leq" -> x <= y            \* not symmetric: x is the slice element / kept value, y the value asked about
                       [] fam = "near" -> x - y <= 1 /\ y - x <= 1      \* not transitive: the definitions must not assume an equivalence
                       [] OTHER -> x = y
 KeyOfV(fam, v) == CASE fam = "mod2" -> v % 2 [] fam = "id" -> v [] OTHER -> 0
